@@ -531,6 +531,51 @@ fn bump_family(out: &mut Out) {
             }
         }
     }
+    // reset under other precedence orders (the reset loop is only an assumed contract in the Verus unit): for every
+    // order below, bumping level p must reset exactly the levels that come after p in that order
+    {
+        use zerv::version::zerv::components::{Component as C, Var};
+        use zerv::version::zerv::{Precedence as P, PrecedenceOrder};
+        let orders: Vec<Vec<P>> = vec![
+            vec![P::Epoch, P::Major, P::Minor, P::Patch, P::Core, P::PreReleaseLabel, P::PreReleaseNum, P::Post, P::Dev, P::ExtraCore, P::Build],
+            vec![P::Dev, P::Post, P::PreReleaseNum, P::PreReleaseLabel, P::Patch, P::Minor, P::Major, P::Epoch],
+            vec![P::Major, P::Epoch, P::Patch, P::Minor, P::Post, P::PreReleaseLabel, P::Dev, P::PreReleaseNum],
+            vec![P::Minor, P::Major, P::Patch],
+        ];
+        let levels = [P::Epoch, P::Major, P::Minor, P::Patch, P::PreReleaseLabel, P::PreReleaseNum, P::Post, P::Dev];
+        for order in &orders {
+            for (li, p) in levels.iter().enumerate() {
+                out.cases += 1;
+                let vars = ZervVars { major: Some(3), minor: Some(4), patch: Some(5), epoch: Some(6),
+                    pre_release: Some(PreReleaseVar { label: PreReleaseLabel::Beta, number: Some(7) }), post: Some(8), dev: Some(9), distance: Some(2), ..Default::default() };
+                let schema = ZervSchema::new_with_precedence(vec![C::Var(Var::Major)], vec![], vec![], PrecedenceOrder::from_precedences(order.clone())).unwrap();
+                let mut z = Zerv::new(schema, vars.clone()).unwrap();
+                let r = z.reset_lower_precedence_components(p);
+                let pos = order.iter().position(|x| x == p);
+                if r.is_ok() != pos.is_some() {
+                    out.cex("bump_levels", format!("reset_lower_precedence_components({p:?}) under order {order:?}: is_ok = {}, level known = {}", r.is_ok(), pos.is_some()));
+                    continue;
+                }
+                let Some(pos) = pos else { if z.vars != vars { out.cex("bump_levels", format!("rejected reset({p:?}) changed the variables")); } continue; };
+                let after = |q: &P| order.iter().position(|x| x == q).map(|i| i > pos).unwrap_or(false);
+                let mut e = vars.clone();
+                if after(&P::Epoch) { e.epoch = Some(0); }
+                if after(&P::Major) { e.major = Some(0); }
+                if after(&P::Minor) { e.minor = Some(0); }
+                if after(&P::Patch) { e.patch = Some(0); }
+                if after(&P::PreReleaseLabel) { e.pre_release = None; }
+                else if after(&P::PreReleaseNum) { e.pre_release = Some(PreReleaseVar { label: PreReleaseLabel::Beta, number: Some(0) }); }
+                if after(&P::Post) { e.post = None; }
+                if after(&P::Dev) { e.dev = None; }
+                let _ = li;
+                if z.vars != e {
+                    out.cex("bump_levels", format!("reset_lower_precedence_components({p:?}) under order {order:?}: got major={:?} minor={:?} patch={:?} epoch={:?} pre={:?} post={:?} dev={:?}; expected major={:?} minor={:?} patch={:?} epoch={:?} pre={:?} post={:?} dev={:?}",
+                        z.vars.major, z.vars.minor, z.vars.patch, z.vars.epoch, z.vars.pre_release, z.vars.post, z.vars.dev,
+                        e.major, e.minor, e.patch, e.epoch, e.pre_release, e.post, e.dev));
+                }
+            }
+        }
+    }
     // overflow is rejected, not wrapped
     let vars = ZervVars { major: Some(u64::MAX), ..Default::default() };
     let mut z = Zerv::new(ZervSchema::pep440_default().unwrap(), vars).unwrap();
